@@ -347,6 +347,52 @@ impl GModel {
         true
     }
 
+    /// Shape tag: a node creation (`k>name` with a marker taken before the alternative, or a whole-rule `>`)
+    /// inside an alternative of an ordered choice that can still be undone. The wrapper is inserted *below* the
+    /// rollback's truncation point (known finding, DESIGN §7): runs on such grammars are reported under one signature.
+    pub fn undoable_creation_at_outer_mark(&self) -> bool {
+        fn walk(r: &Rx, undoable: bool, inner_marks: &mut Vec<String>) -> bool {
+            match r {
+                Rx::Choice(v) => {
+                    let n = v.len();
+                    v.iter().enumerate().any(|(i, alt)| {
+                        if i + 1 < n {
+                            let mut inner = vec![];
+                            walk(alt, true, &mut inner)
+                        } else {
+                            walk(alt, undoable, inner_marks)
+                        }
+                    })
+                }
+                Rx::Seq(v) => {
+                    let mut u = undoable;
+                    let depth = inner_marks.len();
+                    let mut hit = false;
+                    for x in v {
+                        if matches!(x, Rx::Commit) {
+                            u = false;
+                        }
+                        if walk(x, u, inner_marks) {
+                            hit = true;
+                        }
+                    }
+                    let _ = depth;
+                    hit
+                }
+                Rx::Alt(v) => v.iter().any(|x| walk(x, undoable, &mut inner_marks.clone())),
+                Rx::Opt(x) | Rx::Star(x) | Rx::Plus(x) | Rx::Paren(x) => walk(x, undoable, &mut inner_marks.clone()),
+                Rx::Marker(n) => {
+                    inner_marks.push(n.clone());
+                    false
+                }
+                Rx::Create { num: Some(n), .. } => undoable && !inner_marks.contains(n),
+                Rx::Create { num: None, .. } => undoable,
+                _ => false,
+            }
+        }
+        self.rules.iter().any(|r| r.body.as_ref().is_some_and(|b| walk(b, false, &mut vec![])))
+    }
+
     pub fn has_choice(&self) -> bool {
         fn f(r: &Rx) -> bool {
             match r {
